@@ -14,6 +14,13 @@ impl Fnv {
         self.0 ^= 0xff;
         self.0 = self.0.wrapping_mul(0x100000001b3);
     }
+    /// no separator: for streams whose chunking must not matter
+    pub fn write_raw(&mut self, b: &[u8]) {
+        for &c in b {
+            self.0 ^= c as u64;
+            self.0 = self.0.wrapping_mul(0x100000001b3);
+        }
+    }
     pub fn finish(&self) -> u64 {
         self.0
     }
